@@ -152,6 +152,8 @@ func c14ExprCtxs() []c14Ctx {
 		{"key between {} and 'z'", 'T', "NBLJ", true, 'B'},
 		{"key between 'a' and {}", 'T', "NBLJ", true, 'B'},
 		{"int(value) between 1 and {}", 'N', "TBLJ", true, 'B'},
+		{"json({})['a']['b'] != 'q'", 0, "", true, 'B'},
+		{"split({}, ',')[0] = 'a'", 0, "", true, 'B'},
 		{"{} + 1", 'N', "TBLJ", true, 'N'},
 		{"2 * {}", 'N', "TBLJ", true, 'N'},
 		{"{} + 'x'", 'T', "NBLJ", true, 'T'},
